@@ -118,16 +118,20 @@ struct PassLog {
     passes: Vec<Value>,
     digests: Vec<u64>,
     stop: Option<Value>,
+    repeat: Option<Value>,
 }
 
 fn run_codegen(req: &Value, tree: &Arc<mos_core::parser::ParseTree>, greedy: bool, out: &mut Map<String, Value>) {
     let max_passes = req.get("max_passes").and_then(|n| n.as_u64()).unwrap_or(64) as usize;
+    // a repeated digest proves that the unobserved loop would never leave through its rules; with
+    // `stop_on_repeat: false` the loop is left running (to see whether the implementation's own cap ends it)
+    let stop_on_repeat = req.get("stop_on_repeat").and_then(|b| b.as_bool()).unwrap_or(true);
     let mut opts = CodegenOptions::default();
     opts.enable_greedy_analysis = greedy;
     if let Some(pc) = req.get("pc").and_then(|b| b.as_u64()) {
         opts.pc = (pc as usize).into();
     }
-    let log = Rc::new(RefCell::new(PassLog { passes: vec![], digests: vec![], stop: None }));
+    let log = Rc::new(RefCell::new(PassLog { passes: vec![], digests: vec![], stop: None, repeat: None }));
     let log2 = log.clone();
     verif_set_pass_observer(Some(Box::new(move |info: &VerifPassInfo| {
         let mut l = log2.borrow_mut();
@@ -136,8 +140,13 @@ fn run_codegen(req: &Value, tree: &Arc<mos_core::parser::ParseTree>, greedy: boo
             "g": format!("{:016x}", info.segments_digest), "ne": info.errors, "nu": info.undefined, "nodes": info.node_count,
             "nseg": info.segment_count, "added": info.symbols_added}));
         if let Some(j) = l.digests.iter().position(|d| *d == info.digest) {
-            l.stop = Some(json!({"kind": "repeat", "first": j, "again": info.pass_idx}));
-            return VerifPassAction::Stop;
+            if l.repeat.is_none() {
+                l.repeat = Some(json!({"first": j, "again": info.pass_idx}));
+            }
+            if stop_on_repeat {
+                l.stop = Some(json!({"kind": "repeat", "first": j, "again": info.pass_idx}));
+                return VerifPassAction::Stop;
+            }
         }
         l.digests.push(info.digest);
         if l.digests.len() > max_passes {
@@ -153,6 +162,7 @@ fn run_codegen(req: &Value, tree: &Arc<mos_core::parser::ParseTree>, greedy: boo
         let l = log.borrow();
         o.insert("passes".into(), Value::Array(l.passes.clone()));
         o.insert("stop".into(), l.stop.clone().unwrap_or(Value::Null));
+        o.insert("repeat".into(), l.repeat.clone().unwrap_or(Value::Null));
     }
     match r {
         Err(p) => {
